@@ -6,7 +6,8 @@ PID = "C03"
 PROPS = ["Props/C03.v"]
 GEN = ['LexConst.v', 'ParseConst.v']
 MODEL_IS_SPEC = False
-RULE = ("well-typed query ASTs (all selector kinds, nested filters, comparisons, built-in calls) rendered with every optional lexical form (blank space at every position the "
+RULE = ("nesting stress: filters inside the queries that are function arguments, parenthesised sub-expressions and several selectors inside them, two-argument calls whose first argument contains such a filter, to depth 4; "
+        "well-typed query ASTs (all selector kinds, nested filters, comparisons, built-in calls) rendered with every optional lexical form (blank space at every position the "
         "grammar allows incl. LF/CR/TAB, both quote styles, every escape form incl. \\uXXXX in both hex cases and surrogate pairs, shorthand or bracket notation, number "
         "spellings with exponent/fraction/-0, non-ASCII and non-BMP shorthand names); the Coq side decides in-grammar + well-typed + integers in range; a case fails if compile() "
         "rejects such a string or compiles it to a different structure than the generating AST; non-trivial = all; distinct = distinct strings")
@@ -26,12 +27,90 @@ LEVEL_TEXT = ("Proved: oracle correctness (in_rfc_sound/complete), number and st
 LEVEL_NOTE = "Partial: full grammar -> lexer+parser completeness is not proved. Trusted: Coq kernel, grammar transcription, renderer (self-checked), extraction and driver."
 
 
+def nest(rng, depth):
+    """(logical expression AST, text): deliberately nested - filters inside the queries that are function arguments, parenthesised
+    sub-expressions and commas inside them, calls with two arguments whose FIRST argument contains such a filter"""
+    def atom():
+        n = rng.choice(["a", "b", "c"])
+        return ("rel", [("child", [("name", n)])]), "@.%s" % n
+
+    def logical(d):
+        r = rng.random()
+        if d <= 0 or r < 0.2:
+            return atom()
+        if r < 0.35:
+            a, t = logical(d - 1); return a, "(%s)" % t
+        if r < 0.5:
+            a, ta = logical(d - 1); b, tb = logical(d - 1)
+            op = rng.choice(["and", "or"])
+            return (op, a, b), "(%s %s %s)" % (ta, "&&" if op == "and" else "||", tb)
+        if r < 0.6:
+            a, t = atom(); return ("cmp", "==", a, ("lit", 1)), "%s == 1" % t
+        if r < 0.7:
+            a, t = logical(d - 1)
+            return ("not", a), "!(%s)" % t
+        q, tq = query(d - 1)
+        if r < 0.8:
+            return ("cmp", "==", ("call", "count", [q]), ("lit", 1)), "count(%s) == 1" % tq
+        if r < 0.9:
+            q2, tq2 = query(d - 1)
+            a = ("call", rng.choice(["match", "search"]), [("call", "value", [q]), ("call", "value", [q2])])
+            return a, render(a, None)
+        a = ("call", "match", [("call", "value", [q]), ("lit", "x")])
+        return a, render(a, None)
+
+    def render(a, t):
+        if t is not None: return t
+        # calls whose text was left to be assembled from their arguments
+        name, args = a[1], a[2]
+        return "%s(%s)" % (name, ", ".join(render_any(x) for x in args))
+
+    memo = {}
+
+    def render_any(x):
+        if id(x) in memo: return memo[id(x)]
+        if x[0] == "lit": return repr(x[1]) if isinstance(x[1], str) else str(x[1])
+        if x[0] == "call": return "%s(%s)" % (x[1], ", ".join(render_any(y) for y in x[2]))
+        raise KeyError(x)
+
+    def query(d):
+        f1, t1 = logical(d); t1 = render(f1, t1)
+        sels, texts = [("filter", f1)], ["?" + t1]
+        if rng.random() < 0.4:
+            f2, t2 = logical(d); t2 = render(f2, t2)
+            sels.append(("filter", f2)); texts.append("?" + t2)
+        if rng.random() < 0.3:
+            sels.append(("index", 0)); texts.append("0")
+        q = ("rel", [("child", sels)])
+        t = "@[%s]" % ", ".join(texts)
+        memo[id(q)] = t
+        return q, t
+    a, t = logical(depth)
+    return a, render(a, t)
+
+
 def cases(ctx, budget):
     rng = ctx.rng
     env = harness.make_env()
     reg = gen.BUILTINS
     renc = gen.enc_registry(reg)
     n = (6000 if ctx.quick else 300000) * budget
+    for i in range((500 if ctx.quick else 20000) * budget):
+        e, et = nest(rng, rng.randint(2, 4))
+        q = [("child", [("filter", e)])]
+        text = "$[?%s]" % et
+        out, c = harness.impl_compile(env, text)
+        got_norm = ([0] + gen.enc_segs(gen.norm_assoc(gen.ast_of_query(c)))) if c is not None else out
+        want = [0] + gen.enc_segs(gen.norm_assoc(q))
+
+        def chk(impl_out, spec, want=want, got_norm=got_norm):
+            if spec != [1, 1, 1]:
+                raise AssertionError("generator self-check: rendered query is not valid for the Coq side %r" % (spec,))
+            if impl_out[0] != 0: return "valid query rejected"
+            if got_norm != want: return "valid query compiled to a different structure (modulo associativity of && and ||)"
+            return None
+        yield Case({"text": text}, harness.compile_req(reg, text), out,
+                   [109, -harness.LIM, harness.LIM] + renc + gen.enc_segs(q) + wire.enc_str(text), None, True, "nested", True, chk)
     for i in range(n):
         names = gen.NAMES if rng.random() < 0.4 else gen.SIMPLE_NAMES
         q = gen.rand_query(rng, names=names, depth=rng.randint(1, 3), maxseg=4)
